@@ -1277,6 +1277,44 @@ def is_monotonic_on(dfx: Expr, var: str, lower: Expr, upper: Expr) -> bool:
     return len(signs) < 2
 
 
+def is_inverse_on(gu: Expr, u: str, g: Expr, var: str, lower: Expr, upper: Expr) -> bool:
+    """Return False if gu (in variable u) fails to invert g (in variable var) at
+    a sample point strictly between lower and upper, that is gu(g(x)) != x there.
+    Returns True when no such point is found or the expressions cannot be evaluated.
+
+    """
+    if not (lower.is_evaluable() and upper.is_evaluable()):
+        return True
+    try:
+        a, b = float(expr.eval_expr(lower)), float(expr.eval_expr(upper))
+    except (ZeroDivisionError, ValueError, OverflowError, TypeError, NotImplementedError):
+        return True
+    if a > b:
+        a, b = b, a
+    if a == float('-inf') and b == float('inf'):
+        pts = [-10.0, -1.0, -0.1, 0.1, 1.0, 10.0]
+    elif a == float('-inf'):
+        pts = [b - d for d in (0.1, 1.0, 10.0)]
+    elif b == float('inf'):
+        pts = [a + d for d in (0.1, 1.0, 10.0)]
+    else:
+        pts = [a + (b - a) * k / 8 for k in range(1, 8)]
+    for pt in pts:
+        try:
+            x0 = Const(Fraction(pt).limit_denominator(10 ** 6))
+            u0 = expr.eval_expr(g.subst(var, x0))
+            if isinstance(u0, complex):
+                continue
+            x1 = expr.eval_expr(gu.subst(u, Const(Fraction(u0).limit_denominator(10 ** 9))))
+        except (ZeroDivisionError, ValueError, OverflowError, TypeError, NotImplementedError, AssertionError):
+            continue
+        if isinstance(x1, complex):
+            continue
+        if abs(x1 - float(x0.val)) > 1e-4 * (1 + abs(float(x0.val))):
+            return False
+    return True
+
+
 class Substitution(Rule):
     """Apply substitution u = g(x).
 
@@ -1360,6 +1398,8 @@ class Substitution(Rule):
                 raise AssertionError("Substitution: unable to solve equation")
 
             gu = normalize(gu, ctx.get_conds())
+            if e.is_integral() and not is_inverse_on(gu, str(var_name), var_subst, e.var, e.lower, e.upper):
+                raise AssertionError("Substitution: %s is not the inverse of %s on the interval of integration" % (gu, var_subst))
             c = e.body.replace(parser.parse_expr(e.var), gu)
             new_problem_body = c * deriv(str(var_name), gu, ctx)
             self.f = new_problem_body
